@@ -34,8 +34,9 @@ RULE = ('scenario = generated model (2-5 harness comps/ExecComps in root/g/g.h, 
 LEVEL_TEXT = ('every recorder file of every scenario is read back completely and compared event by event; '
               'no exhaustiveness claim over models/options')
 ASSUMPTIONS = [
-    'root nonlinear vectors read at the record call are "the values in the model" (for models with output '
-    'scaling the physical values observed inside the harness components\' compute() are used instead)',
+    'root nonlinear vectors read at the record call are "the values in the model"; for system/solver cases of '
+    'models with output scaling (recorded while the vectors are scaled) the physical values observed inside the '
+    'harness components\' compute() are the reference, to 8 ulp (y/ref*ref round trips)',
     'include/exclude semantics: only variables for which every plausible name (absolute, relative, promoted) '
     'agrees on matching are judged; outputs that are sources of recorded inputs are not judged absent',
     'driver derivatives are compared with the derivative record of the same coordinate (the reader\'s '
@@ -551,7 +552,11 @@ def check_case(c, e, devs, spec, V, voi, scaled, opts, J, values_equal, name):
             if io == 'residual' and scaled:
                 continue
             exp = None
-            if scaled and io == 'output':
+            ulps = 0
+            if scaled and io == 'output' and kind in ('system', 'solver', 'linesearch'):
+                # recorded while the vectors are in the solver-scaled state: the reference is the physical value seen
+                # in compute(); a value that went through y/ref*ref round trips may differ from it by a few ulp
+                ulps = 8
                 m = V.get(a)
                 if m is None or m['comp'] not in snap['last'] or a.split('.')[-1] not in snap['last'][m['comp']][1]:
                     continue
@@ -568,7 +573,7 @@ def check_case(c, e, devs, spec, V, voi, scaled, opts, J, values_equal, name):
                 J.viol('value:%s:%s:lookup-raises:%s' % (kind, io, type(ex).__name__), 'case.%ss[%r]: %s' % (io, a, ex))
                 continue
             acc.count('obs:values_compared')
-            if not values_equal(val, exp):
+            if not values_equal(val, exp) and not (ulps and _close(val, exp, ulps)):
                 m = V.get(a, {})
                 tag = 'discrete' if m.get('discrete') else 'continuous'
                 vkey = 'value:%s:%s:%s' % (kind, io, tag)
@@ -616,6 +621,17 @@ def check_case(c, e, devs, spec, V, voi, scaled, opts, J, values_equal, name):
                            'case %s (desvar %s=%s) is shown with total derivatives computed at %s=%s'
                            % (name, dv, x_case.tolist(), dv, x_der.tolist()))
                     break
+
+
+def _close(a, b, ulps):
+    try:
+        a = np.asarray(a, dtype=float).ravel()
+        b = np.asarray(b, dtype=float).ravel()
+    except Exception:  # noqa
+        return False
+    if a.size != b.size or not (np.all(np.isfinite(a)) and np.all(np.isfinite(b))):
+        return False
+    return bool(np.all(np.abs(a - b) <= ulps * 2.3e-16 * np.maximum(np.abs(a), np.abs(b))))
 
 
 def check_derivs(c, want, J, kind, name):
